@@ -55,7 +55,8 @@ Lemma subst_top_composite rt :
   /\ (forall n e, subst_top rt (TArray n e) = TArray n e) /\ (forall k v, subst_top rt (TMap k v) = TMap k v)
   /\ (forall d e, subst_top rt (TChan d e) = TChan d e)
   /\ (forall ps rs va, subst_top rt (TFunc ps rs va) = TFunc ps rs va)
-  /\ (forall b, subst_top rt (TBasic b) = TBasic b).
+  /\ (forall b, subst_top rt (TBasic b) = TBasic b)
+  /\ (forall x, subst_top rt (TParam x) = TParam x).
 Proof. repeat split; reflexivity. Qed.
 
 (* a key that is not set leaves the named type alone; a key that is set replaces it *)
@@ -65,6 +66,10 @@ Proof. reflexivity. Qed.
 
 (* a variadic parameter (go/types: the last parameter has a slice type) is never replaced *)
 Lemma variadic_untouched rt n e : add_var rt (n, TSlice e) = add_var [] (n, TSlice e).
+Proof. reflexivity. Qed.
+
+(* a type-parameter-typed parameter is never replaced, whatever keys share its name *)
+Lemma tparam_untouched rt n x : add_var rt (n, TParam x) = add_var [] (n, TParam x).
 Proof. reflexivity. Qed.
 
 (* methods that mention no key at top level are rendered as without the setting *)
@@ -152,15 +157,15 @@ Qed.
 (* ---------------------------------------------------------------- levels *)
 (* with C08's merge the map a mock is generated with is the first-set resolution of its chain, so
    a key written at any level of the chain (and not overridden below) is the replacement used *)
-Theorem levels disc t m c k r nt :
+Theorem levels rx disc t m c k r nt :
   untouched disc (m_pkg m) ->
-  mock_cfg (init_pure disc (init_pure disc t)) m = Some c ->
+  mock_cfg (init_pure rx disc (init_pure rx disc t)) m = Some c ->
   first_some (map (fun x => rget k (c_rt x)) (written_chain t m)) = Some r ->
   snd nt = TNamed (fst k) (snd k) ->
   v_ty (add_var (c_rt c) nt) = TNamed (fst r) (snd r) /\ v_imports (add_var (c_rt c) nt) = [fst r].
 Proof.
   intros Hu Hc Hf Ht.
-  pose proof (replace_type_first_set disc t m c Hu Hc k) as Hr. rewrite Hf in Hr.
+  pose proof (replace_type_first_set rx disc t m c Hu Hc k) as Hr. rewrite Hf in Hr.
   unfold add_var. rewrite Ht. simpl. destruct k as [kp kn]. simpl in *. rewrite Hr.
   destruct r as [rp rn]. split; reflexivity.
 Qed.
